@@ -41,7 +41,7 @@ CHECKS.update({
             "cantools is the independent decoder; big-endian only on byte-aligned 8/16/32/64-bit fields", "explicit-state enumeration against a reference layout + independent decoder"),
     "C06": ("every flat CAN message of 1..3 signals (4 in thorough) over {u/i 1,5,8,12,16,24,32,33,64, f32, f64, enums} <= 64 bits + directed 5..8-signal messages through the real fcp_can_c generator, gcc, generated main(): frame id/dlc/data == reference packing, decode(encode(v)) == v",
             "gcc 12; NaN/infinities excluded (no portable literal), -0.0 compared bit for bit; a naming family (device/message/binding/enum/signal names of every casing, leading underscores, frame ids at and beyond 11 bits)", "explicit-state enumeration of generator inputs, compiled and executed against a reference model"),
-    "C13": ("C03's struct space in the same harness: the reflection binary produced by the Python tool is loaded with LoadBinarySchema and the dynamic codec's bytes/values are compared with the static codec's for every boundary value; LoadBinarySchema histories on one object (older revision then newer)",
+    "C13": ("C03's struct space in the same harness: the reflection binary produced by the Python tool is loaded with LoadBinarySchema and the dynamic codec's bytes/values are compared with the static codec's for every boundary value; LoadBinarySchema histories on one object (older revision then newer); enum numbers without enumerator",
             "enumerator values stay below 2^31 (the reflection record's slot, open C12 finding); a run-time schema that does not compile is a violation, not a skip", "explicit-state enumeration, differential oracle (static vs dynamic codec)"),
     "C14": ("CAN bindings of every size 57..72, 80, 96, 128, 200 bits with the excess in a scalar, nested struct, array, array of structs or enum at first/middle/last position, every placement of a str/dynamic array/optional, and odd big-endian placements behind multiplexing relations; DBC generate and the can_c generation command must fail and emit nothing for > 64 bits / variable size; geometry of everything emitted",
             "an exception counts as failing with an error", "explicit-state enumeration around the size limit + geometric invariant on emitted artefacts"),
